@@ -225,6 +225,8 @@ theorem step_acct (s : St) (ev : Ev) (h : Acct s) : Acct (step s ev).2.2 := by
   | pull id n => exact handlerPull_acct s id n h
   | deliver id => exact deliverNote_acct s id h
   | srvReset id => exact serverReset_acct s id h
+  | clientSettings v => exact h
+  | clientWU id inc => exact h
   | readThenClose id n how =>
     simp only [step]
     split
